@@ -185,6 +185,8 @@ fn strategy_one<T: SElem + num_traits::ToPrimitive, B: BinsBuildingStrategy<Elem
     let rm = rank_map(&vals);
     let edges: Vec<T> = (0..bins.len()).map(|i| bins.index(i).start).chain((bins.len() > 0).then(|| bins.index(bins.len() - 1).end)).collect();
     o.insert("e2".into(), json!(edges.iter().map(|e| rank2_of(&rm, e)).collect::<Vec<_>>()));
+    // the edges as values: strictly increasing (no bin is empty by construction)
+    o.insert("strict".into(), json!(edges.windows(2).all(|w| w[0] < w[1])));
     o.insert("nvals".into(), json!(rm.len()));
     // per datum: number of bins containing it, by the real lookup
     let inbin: Vec<i64> = vals.iter().map(|x| bins.index_of(x).is_some() as i64).collect();
@@ -407,7 +409,7 @@ pub fn gen(seed: u64, count: usize, tier: &str, params: &Params) -> Vec<Value> {
                 let (mode, lo, hi): (&str, i64, i64) = if sty == "n64" {
                     match rng.below(6) { 0 => ("tenth", 0, 400), 1 => ("offset", 0, 2000), 2 => ("big", 0, 3), 3 => ("third", -50, 50), _ => ("quarter", -200, 200) }
                 } else if sty == "u32" { ("int", 0, 100000) } else { ("int", -50000, 50000) };
-                let style = rng.below(7);
+                let style = rng.below(8);
                 let c0 = rng.range(lo, hi);
                 let data: Vec<i64> = (0..n).map(|k| match style {
                     0 => c0,                                                       // constant
@@ -416,6 +418,7 @@ pub fn gen(seed: u64, count: usize, tier: &str, params: &Params) -> Vec<Value> {
                     3 => rng.range(lo, lo + (hi - lo) / 50 + 1),                   // narrow range
                     4 => c0 + rng.range(0, 5),                                     // a handful of tied values: integer widths truncate to zero
                     5 => c0 + rng.range(0, (n / 2).max(2)),                         // range below n: the truncated integer width loses whole bins
+                    6 => if rng.chance(1, 12) { rng.range(lo, hi) } else { lo + rng.range(0, (hi - lo) / 40 + 4) },   // a concentrated bulk with far outliers: the quartile-based width is far narrower than the range-based ones
                     _ => rng.range(lo, hi) }).collect();
                 cases.push(json!({"ev": "strategy", "ty": sty, "strat": strat, "mode": mode, "data": data}));
             }
